@@ -168,6 +168,10 @@ func widthOf(name string) int {
 	return 8
 }
 
+// cpuHistories: multi-step cases may contain Reset() / TriggerIRQ() calls between the steps (switched off by the C01
+// differential run: the ISA specification has no notion of these entry points)
+var cpuHistories = true
+
 func genCase(r *cpuRng, id int, opcode int, names []string, multi bool) cpuCase {
 	c := cpuCase{id: id, steps: 1, seed: uint32(r.next() & 0xFFFFF), mem: map[uint32]byte{}, opcode: opcode}
 	idx := map[string]int{}
@@ -352,7 +356,7 @@ func genCase(r *cpuRng, id int, opcode int, names []string, multi bool) cpuCase 
 		}
 		// a third of the multi-step cases are HISTORIES: Reset() and TriggerIRQ() calls between the steps
 		// (C12: the stop flag lasts until Reset; C02: the two interpreters agree on these entry points too)
-		if r.n(3) == 0 {
+		if cpuHistories && r.n(3) == 0 {
 			ops := make([]byte, c.steps)
 			for i := range ops {
 				switch k := r.n(12); {
@@ -610,7 +614,9 @@ func cpuCasesCmd(args []string) int {
 	multi := fs.Int("multi", 100, "multi-step cases")
 	fieldsArg := fs.String("fields", "", "comma-separated flattened field names in model index order")
 	outDir := fs.String("out", ".", "")
+	hist := fs.Bool("hist", true, "a third of the multi-step cases are call histories (Reset / TriggerIRQ between the steps)")
 	fs.Parse(args)
+	cpuHistories = *hist
 	names := strings.Split(*fieldsArg, ",")
 	rng := &cpuRng{s: *seed*0x9E3779B97F4A7C15 + 0x1234567}
 	r65, rAlt := newRun65(), newRunAlt()
